@@ -68,7 +68,11 @@ def gen_cases(run):
         B = rng.choice([3, 4, 5, 6])
         L = rng.randrange(1, 50 if run.thorough else 32)
         ops = gen_history(rng, B, L)
-        cases.append(Case("context", [B], ops, {}))
+        # the id of the Context itself: unrelated to the extra-context ids 1, 2, ... it hands out (0, 1, an id equal to / above the
+        # number of extra contexts, large ids)
+        cid = rng.choice([1, 1, 0, 2, 3, 5, 42, 2**63 + 7])
+        cases.append(Case("context", [B], ops, {"ctx_id": cid}))
+        dist.setdefault("context_ids", {}); dist["context_ids"][str(cid)] = dist["context_ids"].get(str(cid), 0) + 1
         for o in ops: dist["ops"][OPN[o[0]]] += 1
         if sum(1 for o in ops if o[0] == 4) >= 2: dist["with_2plus_extras"] += 1
     dist["histories"] = len(cases)
@@ -84,6 +88,7 @@ def builds(run):
 
 def mk_diff(run, bins):
     return Differential(run, bins, lambda c: "context_model_entry", None, check_entry=lambda c: "context_check_entry",
+                        harness_head=lambda c: f"context_{c.meta.get('ctx_id', 1)}",
                         nontrivial=lambda c: len(c.ops) >= 5 and any(o[0] >= 7 for o in c.ops) and any(o[0] <= 3 for o in c.ops))
 
 
